@@ -19,8 +19,9 @@ RULE = ('three kinds of case.  ctx = (table, backend, names): K.T / K.T.T == K /
         'algorithms x all permutations, then seeded random larger tables with random permutations; non-trivial = '
         'table neither all-true nor all-false (perm: and a non-identity permutation); distinct = distinct case '
         'dict without the stream tag')
-EXHAUSTIVE = {'quick': 'all tables n,m<=3 (682) x 3 backends x {ctx with plain and "not "-prefixed names, all ordered '
-                       'selections; lat x 2 algorithms; perm x 2 algorithms x all n!*m! permutations}',
+EXHAUSTIVE = {'quick': 'all tables n,m<=3 (682) x 3 backends x {ctx with plain, "not "-prefixed and TRICKY names (valid names whose '
+                       'remainder after an optional "not " starts with n/o/t/blank, rotating through the pool), all ordered '
+                       'selections; lat x 2 algorithms x {"not "-prefixed, TRICKY names}; perm x 2 algorithms x all n!*m! permutations}',
               'thorough': 'the quick scope, plus random tables up to 7x7 with random permutations'}
 EXPLANATION = ('K.T, ~K, K[pi,sigma], ConceptLattice.T and the monotone construction are pinned uniquely (up to the '
                'order of set-valued children) by the model, and the Lean theorems Fca.C06.* prove model = Spec for all '
@@ -36,7 +37,7 @@ TRUSTED = ['the lattice-construction algorithms (Lindig, CbO) are not modelled h
            'itself judged by the brute-force Lean oracle allConcepts + lowerCovers',
            'POSet parents_dict is modelled as _transpose_hierarchy(children_dict) (what POSet.__init__ caches)',
            'zlib.adler32 (hash_fixed) is an opaque integer passed from the implementation to the model']
-CHUNK = 120
+CHUNK = 600
 REQUESTS_NEED_IMPL = True
 
 ALGOS = (None, 'CbO')
@@ -44,11 +45,26 @@ OBJ = ['g%d' % i for i in range(16)]
 ATT = list('abcdefghijklmnop')
 
 
-def _names(kind, n, m, rng=None):
+# valid names (NamesOK: none starts with "not not ") whose remainder after an optional 'not ' starts with one of the
+# characters n, o, t, blank -- a prefix toggle implemented with a character-set strip goes wrong exactly on these --
+# mixed with the plain / singly negated forms
+TRICKY = ['tall', 'not tall', 'old', 'not old', 'note', 'not note', ' x', 'not  x', 'n', 'not n', 'to', 'not to',
+          'a', 'not b', 'not', 'nota', 'not on', 'o n']
+
+
+def _tricky(k, off):
+    assert k <= len(TRICKY)
+    return [TRICKY[(off + j) % len(TRICKY)] for j in range(k)]
+
+
+def _names(kind, n, m, rng=None, off=0):
     objs, attrs = OBJ[:n], ATT[:m]
     if kind == 'not':          # valid: some names carry one leading 'not '
         attrs = [('not ' + a) if j % 2 == 0 else a for j, a in enumerate(attrs)]
         objs = [('not ' + g) if i % 2 == 1 else g for i, g in enumerate(objs)]
+    elif kind == 'tricky':     # valid: see TRICKY
+        attrs = _tricky(m, off)
+        objs = _tricky(n, off + 7)
     elif kind == 'bad':        # malformed: the excluded point of the toggle
         attrs = list(attrs)
         j = 0 if rng is None else rng.randrange(m)
@@ -58,9 +74,9 @@ def _names(kind, n, m, rng=None):
     return objs, attrs
 
 
-def _ctx_case(rows, be, kind, stream, sels=None, rng=None):
+def _ctx_case(rows, be, kind, stream, sels=None, rng=None, off=0):
     n, m = len(rows), len(rows[0])
-    objs, attrs = _names(kind, n, m, rng)
+    objs, attrs = _names(kind, n, m, rng, off)
     if sels is None:
         so, sa = list(G.ordered_sublists(range(n))), list(G.ordered_sublists(range(m)))
     else:
@@ -73,12 +89,15 @@ def _history_cases(rng, tier):
     tables = list(G.tables_upto(2, 2)) + [[[1, 0, 1], [1, 1, 0]], [[1, 0], [0, 1], [1, 1]], [[1, 1, 0], [0, 1, 1], [1, 0, 1]]]
     for _ in range(6 if tier == 'quick' else 40):
         tables.append(G.random_table(rng, 4, 4))
-    for rows in tables:
+    for ti, rows in enumerate(tables):
         n, m = len(rows), len(rows[0])
         for be in BACKENDS:
-            for pre in (['T'], ['CbO'], ['default'], ['not'], ['T', 'CbO']):
-                objs2 = ['r%d' % i for i in range(n)]
-                attrs2 = ['z%d' % j for j in range(m)]
+            for pi_, pre in enumerate((['T'], ['CbO'], ['default'], ['not'], ['T', 'CbO'])):
+                if (ti + pi_) % 2 == 0:
+                    objs2 = ['r%d' % i for i in range(n)]
+                    attrs2 = ['z%d' % j for j in range(m)]
+                else:   # renamed to names on which the 'not ' toggle is delicate
+                    objs2, attrs2 = _names('tricky', n, m, off=ti + 3 * pi_)
                 yield dict(stream='history', k='ctx', be=be, rows=rows, objs0=OBJ[:n], attrs0=ATT[:m], pre=pre,
                            objs=objs2, attrs=attrs2, so=[[], list(range(n))[:1]], sa=[[], list(range(m))[:1]])
                 # permuting the existing names is a renaming too
@@ -98,17 +117,21 @@ def gen(tier, seed, boost=False):
                 for c in (data if isinstance(data, list) else [data.get('case', data)]):
                     yield dict(c, stream='corpus')
     # ---- exhaustive small scope ----------------------------------------------------------------
-    for rows in G.tables_upto(3, 3):
+    for ti, rows in enumerate(G.tables_upto(3, 3)):
         n, m = len(rows), len(rows[0])
-        for be in BACKENDS:
+        for bi, be in enumerate(BACKENDS):
             yield _ctx_case(rows, be, 'plain', 'exhaustive')
             yield _ctx_case(rows, be, 'not', 'exhaustive')
-            for algo in ALGOS:
+            yield _ctx_case(rows, be, 'tricky', 'exhaustive', off=ti + 5 * bi)
+            for ai, algo in enumerate(ALGOS):
+                # the names rotate through the TRICKY pool (it contains the plain and singly negated forms too)
+                tobjs, tattrs = _names('tricky', n, m, off=ti + 5 * bi + 2 * ai)
                 yield dict(stream='exhaustive', k='lat', be=be, rows=rows, algo=algo, objs=OBJ[:n], attrs=_names('not', n, m)[1])
+                yield dict(stream='exhaustive', k='lat', be=be, rows=rows, algo=algo, objs=tobjs, attrs=tattrs)
                 for pi in itertools.permutations(range(n)):
                     for sg in itertools.permutations(range(m)):
                         yield dict(stream='exhaustive', k='perm', be=be, rows=rows, algo=algo, pi=list(pi), sigma=list(sg),
-                                   objs=OBJ[:n], attrs=ATT[:m])
+                                   objs=OBJ[:n], attrs=tattrs)
     # ---- seeded random larger cases ------------------------------------------------------------
     big = 6 if tier == 'quick' else 7
     nrand = 60 if tier == 'quick' else 700
@@ -127,12 +150,13 @@ def gen(tier, seed, boost=False):
             rng.shuffle(sg)
             perms.append((pi, sg))
         for be in BACKENDS:
-            yield _ctx_case(rows, be, rng.choice(('plain', 'not')), 'random', sels)
+            yield _ctx_case(rows, be, rng.choice(('plain', 'not', 'tricky', 'tricky')), 'random', sels, off=rng.randrange(len(TRICKY)))
             for algo in ALGOS:
-                yield dict(stream='random', k='lat', be=be, rows=rows, algo=algo, objs=OBJ[:n], attrs=_names('not', n, m)[1])
+                tobjs, tattrs = _names(rng.choice(('not', 'tricky', 'tricky')), n, m, off=rng.randrange(len(TRICKY)))
+                yield dict(stream='random', k='lat', be=be, rows=rows, algo=algo, objs=tobjs, attrs=tattrs)
                 for pi, sg in perms:
                     yield dict(stream='random', k='perm', be=be, rows=rows, algo=algo, pi=pi, sigma=sg,
-                               objs=OBJ[:n], attrs=ATT[:m])
+                               objs=tobjs, attrs=tattrs)
     # ---- malformed stream: the excluded "not not " names -------------------------------------------
     nmal = 30 if tier == 'quick' else 300
     for it in range(nmal):
@@ -303,6 +327,32 @@ def _ctx_same(a, b):
 def _judge_ctx(c, io, rep):
     mal = c['stream'] == 'malformed'
     rT, rTT, rN, rNN, rD = rep
+    if not mal:
+        # ---- the property itself, on the implementation's output (oracles: the case and the Lean *Spec* tables) ----
+        n, m = len(c['rows']), len(c['rows'][0])
+        K0 = dict(rows=[[int(v) for v in r] for r in c['rows']], objs=list(c['objs']), attrs=list(c['attrs']),
+                  be=SHORT[c['be']], h=n, w=m)
+        for what, got, eq in (('K.T.T == K', io['TT'], io['TT_eq']), ('~~K == K', io['notnot'], io['notnot_eq'])):
+            if _bad(got):
+                return _fail('property', what, f'implementation raised {got}')
+            for f in ('rows', 'objs', 'attrs', 'h', 'w'):
+                if got[f] != K0[f]:
+                    return _fail('property', what, f'{f} of the result are {got[f]}, those of K are {K0[f]}')
+            if eq is not True:
+                return _fail('property', what, f'the comparison returned {eq}')
+        T = io['T']
+        if _bad(T):
+            return _fail('property', 'K.T', f'implementation raised {T}')
+        if T['rows'] != rT['spec'] or T['w'] != rT['spec_w'] or T['objs'] != K0['attrs'] or T['attrs'] != K0['objs']:
+            return _fail('property', 'K.T', f'{T} is not the transposed table {rT["spec"]} with the two name lists exchanged')
+        N = io['not']
+        if _bad(N):
+            return _fail('property', '~K', f'implementation raised {N}')
+        if N['rows'] != rN['spec'] or N['w'] != rN['spec_w'] or N['objs'] != K0['objs']:
+            return _fail('property', '~K', f'{N} is not the complemented table {rN["spec"]} with the object names of K')
+        if 'ok' in rN['res'] and N['attrs'] != rN['res']['ok']['attrs']:
+            return _fail('property', '~K attribute names',
+                         f'{N["attrs"]} is not the prefix toggle {rN["res"]["ok"]["attrs"]} of {K0["attrs"]}')
     for name, r, impl_ctx in (('K.T', rT, io['T']), ('K.T.T', rTT, io['TT']), ('~K', rN, io['not']), ('~~K', rNN, io['notnot'])):
         res = r['res']
         if _bad(impl_ctx) or 'err' in res:
@@ -475,7 +525,10 @@ def branch(c, io, rep):
         tags.append('concepts:%d' % min(len(io['L']['concepts']), 33) if len(io['L']['concepts']) < 33 else 'concepts:33+')
     if c['k'] == 'ctx':
         tags.append('names:' + ('bad' if any(a.startswith('not not ') for a in c['attrs']) else
+                                'tricky' if any(a in TRICKY[:12] or a in TRICKY[14:] for a in c['attrs']) else
                                 'not' if any(a.startswith('not ') for a in c['attrs']) else 'plain'))
+    elif c['k'] in ('lat', 'perm') and any(a in TRICKY[:12] or a in TRICKY[14:] for a in c['attrs']):
+        tags.append(c['k'] + '-names:tricky')
     return tags
 
 
